@@ -53,6 +53,7 @@ class Cfg:
     clones: Tuple[int, int] = (1, 8)         # probability (num, den) of making some records value-equal EntV clones
     kw_vars: Tuple[int, int] = (0, 1)        # probability that a variable is declared as T(From(d), field=const)
     const_operands: Tuple[int, int] = (1, 12)  # probability that an operand of and/or is a constant / variable-free test
+    extra_templates: Tuple[str, ...] = ()    # additional weight for named shape templates (needs >= 2 variables)
 
 
 def chance(draw, num: int, den: int) -> bool:
@@ -283,11 +284,13 @@ def template_cond(draw, ctx: Ctx, force=None):
     n = ctx.nvars
     T = ["free", "free", "free"]
     if n >= 2:
-        T += ["and_right_diffvar_or", "and_two_ors", "or_overlap", "subset_only", "and_independent", "filter_then_join"]
+        T += ["and_right_diffvar_or", "and_two_ors", "or_overlap", "subset_only", "and_independent", "filter_then_join", "and_right_nested_cross"]
     if n >= 3:
         T += ["indep_and_or3", "indep_and_or3", "indep_and_join3"]
     T += ["same_var_or", "not_over_and", "not_over_or", "and_of_ors_samevar"] if cfg.allow_not else \
         ["same_var_or", "and_of_ors_samevar"]
+    if n >= 2:
+        T += list(cfg.extra_templates)
     t = force or draw(st.sampled_from(T))
     f = lambda: draw(st.sampled_from(cfg.and_forms))
     if t == "free":
@@ -311,6 +314,11 @@ def template_cond(draw, ctx: Ctx, force=None):
         if chance(draw, 1, 4):
             parts.reverse()
         return ["and", f(), parts]
+    if t == "and_right_nested_cross":
+        # c(x) & (a(y) & b(x)): the inner conjunction is entered with x bound, its LEFT operand is over another variable
+        x, y = (draw(st.permutations(list(range(n)))))[:2]
+        last = leaf(draw, ctx, draw(st.sampled_from([[x], [x], [x, y]])))
+        return ["and", draw(st.sampled_from(["binr", "binr", "nary"])), [leaf(draw, ctx, [x]), leaf(draw, ctx, [y]), last]]
     if t == "and_independent":
         x, y = (draw(st.permutations(list(range(n)))))[:2]
         return ["and", f(), [leaf(draw, ctx, [x]), leaf(draw, ctx, [y])]]
